@@ -59,9 +59,7 @@ func init() {
 				for j := 0; j < nparts; j++ {
 					class := c.rng.Intn(4)
 					if !multi {
-						if j == 0 && class == 0 {
-							class = 1 // the outer ring of a polygon is kept whatever happens to it
-						}
+						// (the outer ring of a polygon is kept whatever happens to it - also when it collapses while holes survive)
 						r := ringOf(class, float64(10*j), 0)
 						poly = append(poly, r)
 						res := s.Ring(r.Clone())
